@@ -107,6 +107,22 @@ func checkC01(e *Env) {
 		smp.Add(map[string]any{"entropy": hx(c.Ent), "language": ref.Names[c.Lang], "class": c.Class, "sentence": got})
 	})
 
+	// histories: the same entropy under another language, a neighbouring entropy, other
+	// functions in between — in one process
+	histCalls := e.runHistories(drv, "C01", e.pick(24, 300), 4, func(ops []plan.Op, res []plan.Res) {
+		for i := range res {
+			op := &ops[i]
+			if op.Fn != "enc" || op.L < 0 || op.L >= ref.NLang || !validEntLen(len(op.Entropy())) || res[i].Panic != "" {
+				continue
+			}
+			if want := e.Model.Enc(op.Entropy(), int(op.L)); string(unhex(res[i].Out)) != want || res[i].Err != nil {
+				e.Violate(&Violation{What: fmt.Sprintf("after earlier calls in the same process NewMnemonicByEntropy(%x, %s) is not the BIP39 sentence: %s", op.Entropy(), ref.Names[op.L], describeMismatch(string(unhex(res[i].Out)), want, int(op.L))),
+					Ops: ops[:i+1], Expected: map[string]string{"out_hex": hxs(want)}, Observed: res[i], Detail: historyNote})
+				return
+			}
+		}
+	})
+
 	// completeness of the enumerated factors
 	possible, firstPositions, firstSeen := 0, 0, 0
 	for s, size := range ref.EntSizes {
@@ -147,6 +163,7 @@ func checkC01(e *Env) {
 		"checksum_first_bytes_seen_per_width":       csCount,
 		"language_size_matrix":                      langSize.Map(),
 		"classes":                                   classes.Map(),
+		"calls_inside_histories":                    histCalls,
 		"children":                                  stats.Children,
 		"child_deaths":                              stats.Deaths,
 	}, []string{
